@@ -246,6 +246,12 @@ func c01Stress(c *mon.Ctx, r *mon.Rand) {
 	}
 	var wg sync.WaitGroup
 	var stop int32
+	// counters that every guaranteed worker uses for the first time at the same
+	// moment and keeps a handle to (first use racing first use and the passes)
+	const nShared = 4
+	var sharedSum [nShared]int64
+	sharedScope := root.SubScope("firstuse")
+	barrier := make(chan struct{})
 	// guaranteed workers
 	for w := 0; w < nWorkers; w++ {
 		wg.Add(1)
@@ -253,7 +259,19 @@ func c01Stress(c *mon.Ctx, r *mon.Rand) {
 		go func(w int) {
 			defer wg.Done()
 			mine := all[w]
+			<-barrier
+			var sh [nShared]tally.Counter
+			for k := range sh {
+				sh[k] = sharedScope.Counter(fmt.Sprintf("sh%d", k))
+				sh[k].Inc(1)
+				atomic.AddInt64(&sharedSum[k], 1)
+			}
 			for i := 0; i < iters; i++ {
+				if i%16 == 0 {
+					k := wr.Intn(nShared)
+					sh[k].Inc(2)
+					atomic.AddInt64(&sharedSum[k], 2)
+				}
 				x := mine[wr.Intn(len(mine))]
 				v := int64(wr.Range(0, 5))
 				x.sum += v
@@ -306,6 +324,7 @@ func c01Stress(c *mon.Ctx, r *mon.Rand) {
 			}
 		}(w)
 	}
+	close(barrier)
 	wg.Wait() // guaranteed increments are done
 	time.Sleep(time.Duration(r.Range(0, 300)) * time.Microsecond)
 	closer.Close()
@@ -323,6 +342,12 @@ func c01Stress(c *mon.Ctx, r *mon.Rand) {
 			if a.Sum != x.sum {
 				c.Violation("conservation", map[string]interface{}{"why": fmt.Sprintf("%s: delivered total %d, incremented total %d before Close", x.name, a.Sum, x.sum), "case": desc})
 			}
+		}
+	}
+	for k := 0; k < nShared; k++ {
+		a := agg[mon.IdentKey(fmt.Sprintf("firstuse.sh%d", k), nil)]
+		if a.Sum != sharedSum[k] {
+			c.Violation("conservation-first-use", map[string]interface{}{"why": fmt.Sprintf("firstuse.sh%d: delivered total %d, incremented total %d through the handles %d workers obtained at the same moment", k, a.Sum, sharedSum[k], nWorkers), "case": desc})
 		}
 	}
 	for w := 0; w < nReacq; w++ {
